@@ -300,6 +300,8 @@ class Tensor:
 
     def __vf_compare__(self, I, op, a, b):
         t = type(op)
+        if t in (ast.Is, ast.IsNot):                     # identity of tensor objects (`x is None`, `x is y`)
+            return (a is b) if t is ast.Is else (a is not b)
         name = {ast.Lt: "lt", ast.LtE: "le", ast.Gt: "gt", ast.GtE: "ge", ast.Eq: "eq", ast.NotEq: "ne"}.get(t)
         if name is None:
             raise Unsupported("tensor comparison")
@@ -1095,6 +1097,41 @@ def install(I):
         return Scalar0(z3.Exists(ks, z3.And(*rng, e)) if ks else e)
     ext["torch.any"] = any_
     ext["torch.unsqueeze"] = wrap(unsqueeze)
+
+    def cat(I, a, k):
+        """torch.cat(tensors, dim=0) along the LEADING dimension: entry i comes from the first tensor whose cumulative size exceeds i; the
+        other dimensions must agree (side condition)"""
+        ts = [as_tensor(t) for t in B.iterate(I, a[0])]
+        dim = k.get("dim", a[1] if len(a) > 1 else 0)
+        if not ts:
+            I.raise_("RuntimeError", "torch.cat of an empty list")
+        if len(ts) == 1:
+            return ts[0]
+        if not (is_intlike(dim) and not is_z3(dim) and dim == 0):
+            raise Unsupported("torch.cat along a dimension other than 0")
+        r = ts[0].rank
+        for t in ts[1:]:
+            if t.rank != r:
+                I.raise_("RuntimeError", "torch.cat ranks")
+            for d in range(1, r):
+                I.require("cat.trailing_dims_equal", to_z3(t.shape[d]) == to_z3(ts[0].shape[d]))
+        total = ts[0].shape[0]
+        for t in ts[1:]:
+            total = total + t.shape[0]
+
+        def elem(idx, ts=ts):
+            i = to_z3(lin(idx[0]))
+            off, out = 0, None
+            parts = []
+            for t in ts:
+                parts.append((off, t))
+                off = off + t.shape[0]
+            out = parts[-1][1].elem([i - to_z3(parts[-1][0])] + list(idx[1:]))
+            for o, t in reversed(parts[:-1]):
+                out = z3.If(i < to_z3(o + t.shape[0]), to_z3(t.elem([i - to_z3(o)] + list(idx[1:]))), to_z3(out))
+            return out
+        return Tensor([total] + list(ts[0].shape[1:]), elem, ts[0].dtype)
+    ext["torch.cat"] = cat
 
     def arange(I, a, k):
         if len(a) == 1:
